@@ -22,13 +22,3 @@ func mustEnum(ddl string) *proto.ColEnum {
 
 // Enum returns a name-based enum column that has adopted the given definition.
 func Enum(ddl string) *proto.ColEnum { return mustEnum(ddl) }
-
-// ByLabel finds a generated entry.
-func ByLabel(label string) (Entry, bool) {
-	for _, e := range Generated {
-		if e.Label == label {
-			return e, true
-		}
-	}
-	return Entry{}, false
-}
